@@ -17,6 +17,9 @@ pub enum C03Case {
     Store { case: Case, probe_seed: u32 },
     /// the search itself, exhaustively: all windows and all probe positions over n entries
     SearchExhaustive { n: u32 },
+    /// the search over a VIRTUAL store (entry i carries key 2i+1) through windows of up to 2^32-1
+    /// entries anywhere in the index space: (offset selector, count selector, probe selectors)
+    SearchHuge { off: u32, cnt: u32, probes: Vec<u32> },
 }
 
 pub struct C03;
@@ -139,22 +142,82 @@ impl Property for C03 {
             ]
             .boxed(),
         };
-        (dir, any::<u32>())
-            .prop_map(|(dir, probe_seed)| C03Case::Store { case: Case { packaging: None, dir }, probe_seed })
-            .boxed()
+        let store = (dir, any::<u32>()).prop_map(|(dir, probe_seed)| C03Case::Store { case: Case { packaging: None, dir }, probe_seed });
+        let huge = (any::<u32>(), prop_oneof![2 => any::<u32>(), 2 => 0x8000_0000u32..=u32::MAX, 1 => Just(u32::MAX)], prop::collection::vec(any::<u32>(), 0..12)).prop_map(|(off, cnt, probes)| {
+            // windows that end anywhere up to the top of the index space
+            let off = if cnt > u32::MAX - off { u32::MAX - cnt } else { off };
+            C03Case::SearchHuge { off, cnt, probes }
+        });
+        prop_oneof![30 => store, 1 => huge].boxed()
     }
 
     fn fixed_cases(_tier: Tier) -> Vec<C03Case> {
-        (0..=12).map(|n| C03Case::SearchExhaustive { n }).collect()
+        let mut v: Vec<C03Case> = (0..=12).map(|n| C03Case::SearchExhaustive { n }).collect();
+        let probes = vec![0, 1, u32::MAX, u32::MAX / 2, u32::MAX / 3, 0x8000_0000, 0xC000_0000, 12345];
+        for (off, cnt) in [(0u32, u32::MAX), (0, 0x8000_0000), (0, 0x8000_0001), (1, u32::MAX - 1), (0x4000_0000, 0xBFFF_FFFF), (0x7FFF_FFFF, 0x8000_0000), (u32::MAX - 5, 5), (u32::MAX, 0), (0xFFFF_0000, 0xFFFF), (0, 0xC000_0000), (3, 0xF000_0000)] {
+            v.push(C03Case::SearchHuge { off, cnt, probes: probes.clone() });
+        }
+        v
     }
 
     fn required_classes(_tier: Tier) -> Vec<&'static str> {
-        vec!["sorted", "multi-key", "shared-inline-prefix", "key-is-prefix-of-another", "sub-window", "sort-moved-entries", "search-exhaustive", "probe-absent", "probe-present", "probe-unsorted-column"]
+        vec!["sorted", "multi-key", "shared-inline-prefix", "key-is-prefix-of-another", "sub-window", "sort-moved-entries", "search-exhaustive", "search-window>2^31", "search-window-ends-at-u32-max", "probe-absent", "probe-present", "probe-unsorted-column"]
     }
 
     fn run(case: &C03Case, ctx: &Ctx) -> CaseResult {
         let mut info = CaseInfo::new();
         match case {
+            C03Case::SearchHuge { off, cnt, probes } => {
+                info.class("search-huge-window");
+                let off = *off as u64;
+                let cnt = (*cnt as u64).min(u32::MAX as u64 - off);
+                if cnt > 1 << 31 {
+                    info.class("search-window>2^31");
+                }
+                if off + cnt == u32::MAX as u64 {
+                    info.class("search-window-ends-at-u32-max");
+                }
+                let range = jbk::EntryRange::new_from_size(jbk::EntryIdx::from(off as u32), jbk::EntryCount::from(cnt as u32));
+                // entry i of the store carries key 2i+1; probe key k
+                struct Virtual {
+                    key: u64,
+                    calls: std::cell::Cell<u32>,
+                }
+                impl jbk::reader::CompareTrait for Virtual {
+                    fn ordered(&self) -> bool {
+                        true
+                    }
+                    fn compare_entry(&self, idx: jbk::EntryIdx) -> jbk::Result<Ordering> {
+                        self.calls.set(self.calls.get() + 1);
+                        // a binary search over < 2^32 entries needs at most 33 probes
+                        assert!(self.calls.get() < 200, "binary search does not terminate (200 probes for key {})", self.key);
+                        Ok((2 * idx.into_u32() as u64 + 1).cmp(&self.key))
+                    }
+                }
+                let mut evals = 0u64;
+                let mut keys: Vec<u64> = vec![0, 1, 2 * off, 2 * off + 1, 2 * off + 2, 2 * (off + cnt), 2 * (off + cnt) + 1, (2 * (off + cnt)).saturating_sub(1), 2 * (off + cnt / 2) + 1, 2 * (off + cnt / 2), 2 * (off + cnt - cnt / 4) + 1, 2 * u32::MAX as u64 + 1];
+                for p in probes {
+                    // anywhere in the window (odd = present) and its even neighbour (absent)
+                    let i = off + if cnt == 0 { 0 } else { (*p as u64 * cnt) >> 32 };
+                    keys.push(2 * i + 1);
+                    keys.push(2 * i);
+                }
+                for key in keys {
+                    let expected = if key % 2 == 1 && (key - 1) / 2 >= off && (key - 1) / 2 < off + cnt { Some(((key - 1) / 2 - off) as u32) } else { None };
+                    let cmp = Virtual { key, calls: std::cell::Cell::new(0) };
+                    let got = match range.find(&cmp) {
+                        Ok(g) => g.map(|i| i.into_u32()),
+                        Err(e) => fail!("find-error", "find returned an error: {e}"),
+                    };
+                    ensure!(got == expected, "find-ordered-wrong", "virtual store, window=({off},{cnt}) key={key}: find = {got:?}, expected {expected:?} ({} probes)", cmp.calls.get());
+                    ensure!(cmp.calls.get() <= 34, "find-ordered-too-many-probes", "virtual store, window=({off},{cnt}) key={key}: {} comparisons for a binary search", cmp.calls.get());
+                    evals += 1;
+                }
+                info.evals = evals;
+                info.nontrivial = cnt >= 1;
+                info.key = hash_str(&format!("huge|{}|{}", off >> 20, cnt >> 20));
+                Ok(info)
+            }
             C03Case::SearchExhaustive { n } => {
                 info.class("search-exhaustive");
                 let n = *n;
